@@ -106,8 +106,11 @@ def run(chk):
     store = [f for f in exchange.exchange_functions(prog) if f.param("values") is not None]
     for f in store:
         # the read loop looks the line up in the verb's own accepted set and maps it through the value table
-        src = ast.unparse(f.node)
-        ok = "VALID_STORE_RESULTS[name]" in src and "STORE_RESULTS_VALUE[line]" in src
+        vname = f.pos_params()[0].name  # the verb parameter
+        in_valid = [n for n in walk_no_nested(f.node) if isinstance(n, ast.Compare) and len(n.ops) == 1 and isinstance(n.ops[0], ast.In) and isinstance(n.left, ast.Name) and isinstance(n.comparators[0], ast.Subscript) and isinstance(n.comparators[0].value, ast.Name) and n.comparators[0].value.id == "VALID_STORE_RESULTS" and isinstance(n.comparators[0].slice, ast.Name) and n.comparators[0].slice.id == vname]
+        linevar = in_valid[0].left.id if in_valid else None
+        mapped = [n for n in walk_no_nested(f.node) if isinstance(n, ast.Subscript) and isinstance(n.value, ast.Name) and n.value.id == "STORE_RESULTS_VALUE" and isinstance(n.slice, ast.Name) and n.slice.id == linevar]
+        ok = len(in_valid) == 1 and len(mapped) >= 1
         loops = [n for n in walk_no_nested(f.node) if isinstance(n, ast.For) and any(isinstance(x, ast.Subscript) and isinstance(x.value, ast.Name) and x.value.id == "STORE_RESULTS_VALUE" for x in ast.walk(n))]
         keyed = False
         if loops and isinstance(loops[0].target, ast.Name):
